@@ -6,7 +6,7 @@ BOUNDS = {
     "thorough": "more and longer name templates (escapes \\\\u00XX vs raw, two-byte names, three members, invalid UTF-8 mangling to U+FFFD).",
 }
 ASSUMPTIONS = [
-    "Outside: struct targets (field set wired to real fields), map targets, embedded fallbacks, case-insensitive collisions: reflection-driven closures",
+    "map targets run the real map arshaler through the engine's reflect environment model; struct targets with symbolic names are in the C15 check; embedded fallbacks are outside",
     "strconv.ParseFloat uninterpreted (see C03)",
 ]
 
@@ -26,4 +26,8 @@ def obligations(tier):
             L.append(ob("any/t%d/utf8=%d" % (i, u), ".", "VerifC01Any", [t, 0, u, False], covers=["accept", "reject"]))
     for h in (0, 1, 2, 3):
         L.append(ob("uset/hi=%d" % h, ".", "VerifC08UintSet", [h], covers=["end"], second="cvc5"))
+    for t in ['{"?":1,"?":2}', '{"a":1,"?":2,"?":3}'] if q else ['{"?":1,"?":2}', '{"a":1,"?":2,"?":3}', '{"\\u006?":1,"?":2}', '{"?":1,"b":2,"?":3}']:
+        for pre in B:
+            for d in B:
+                L.append(ob("map/%s/prefilled=%d/dup=%d" % (t.replace('"', ''), pre, d), ".", "VerifC08Map", [t, pre, d], covers=["accept"] if d else ["accept", "reject"], max_seconds=600))
     return L
